@@ -37,6 +37,8 @@ func runC19(c *report.Ctx) {
 	checkSupervisorTerminate(c)
 	c.Clause("4 process map")
 	checkProcessMap(c)
+	checkKillExitedFirst(c)
+	checkFreshExecRequestPerProcess(c)
 }
 
 func checkSupervisorExec(c *report.Ctx) {
